@@ -1047,7 +1047,7 @@ def run_vine(ctx, pend, E, case, viol, tmpdir):
     if am is None:
         ctx.obligation(f'corr:{key}:abstraction', False, 'correspondence', why)
         return
-    dres, d = S.result_term(m.to_dict, S.pv, 'pv')
+    dres, d = S.result_term(m.to_dict, S.pv_dict, 'pv')
     pend.eq(f'corr:{key}:to_dict', f'vine_to_dict {am}', dres, 'VineCopula.to_dict')
     ctx.case(key, {'vine_type': case['vt'], 'table': case['shape'], 'seed': case['seed'], 'trees': len(m.trees),
                    'edges': [len(t.edges) for t in m.trees]}, nontrivial=True)
@@ -1057,11 +1057,11 @@ def run_vine(ctx, pend, E, case, viol, tmpdir):
         json_raises = None
     except Exception as ex:       # noqa: BLE001
         json_raises = type(ex).__name__
-    pend.eq(f'corr:{key}:not-json_safe', f'pv_json_safe {S.pv(d)}', 'true' if json_raises is None else 'false',
+    pend.eq(f'corr:{key}:not-json_safe', f'pv_json_safe {S.pv_dict(d)}', 'true' if json_raises is None else 'false',
             f'json.dumps(vine dict): {json_raises or "succeeds"}')
     # generic entry point
     gres, g = S.result_term(lambda: Multivariate.from_dict(d), S.alpha_v, 'vine')
-    pend.eq(f'corr:{key}:Multivariate.from_dict', f'multivariate_from_dict_vine {S.pv(d)}', gres, 'generic entry point on a vine dict')
+    pend.eq(f'corr:{key}:Multivariate.from_dict', f'multivariate_from_dict_vine {S.pv_dict(d)}', gres, 'generic entry point on a vine dict')
     if isinstance(g, Exception):
         k = 'F-C14c:multivariate-from_dict-vine-TypeError' if isinstance(g, TypeError) and 'vine_type' in str(g) else \
             f'rt:vine:{case["vt"]}:generic-dispatch:{type(g).__name__}'
@@ -1088,7 +1088,7 @@ def run_vine(ctx, pend, E, case, viol, tmpdir):
                 ctx.obligation(f'corr:{key}:{path}:pickle-is-a-copy:{n}', ar == am, 'correspondence',
                                '' if ar == am else 'abstraction of the loaded vine differs from the saved one')
             elif n == 1:
-                pend.eq(f'corr:{key}:dict:from_dict', f'vine_of_dict {S.pv(d)}', f'(Ok {ar})', 'state rebuilt by VineCopula.from_dict')
+                pend.eq(f'corr:{key}:dict:from_dict', f'vine_of_dict {S.pv_dict(d)}', f'(Ok {ar})', 'state rebuilt by VineCopula.from_dict')
                 pend.eq(f'corr:{key}:dict:to_dict-after', f'vine_to_dict {ar}', dres, 'to_dict of the rebuilt vine')
                 # re-linking, on the real objects
                 links = all(t.previous_tree is r.trees[i - 1] for i, t in enumerate(r.trees) if i > 0) and isinstance(r.trees[0].previous_tree, np.ndarray)
@@ -1157,18 +1157,18 @@ def run_unfitted_and_dispatch(ctx, pend, E, viol, tmpdir, rng):
     # --- unfitted vine / tree: round-trip to unfitted ---
     for vt in ('center', 'direct', 'regular'):
         v = VineCopula(vt, random_state=5)
-        dres, d = S.result_term(v.to_dict, S.pv, 'pv')
+        dres, d = S.result_term(v.to_dict, S.pv_dict, 'pv')
         pend.eq(f'corr:unfitted:vine:{vt}:to_dict', f'vine_to_dict {S.alpha_v(v)}', dres, 'unfitted vine dict')
         r = VineCopula.from_dict(d)
-        pend.eq(f'corr:unfitted:vine:{vt}:from_dict', f'vine_of_dict {S.pv(d)}', f'(Ok {S.alpha_v(r)})', 'unfitted vine rebuilt')
+        pend.eq(f'corr:unfitted:vine:{vt}:from_dict', f'vine_of_dict {S.pv_dict(d)}', f'(Ok {S.alpha_v(r)})', 'unfitted vine rebuilt')
         if r.fitted or r.vine_type != vt or S.canon(r.to_dict()) != S.canon(d):
             viol.add(f'unfitted:vine:{vt}', f'unfitted VineCopula({vt!r}) round-trips to fitted={r.fitted}, dict {r.to_dict()}',
                      f'm = VineCopula({vt!r})\nr = VineCopula.from_dict(m.to_dict())\nassert not r.fitted and canon(r.to_dict()) == canon(m.to_dict())\n')
         t = get_tree(vt)
-        tres, td = S.result_term(t.to_dict, S.pv, 'pv')
+        tres, td = S.result_term(t.to_dict, S.pv_dict, 'pv')
         pend.eq(f'corr:unfitted:tree:{vt}:to_dict', f'tree_to_dict {S.alpha_tree(t, [])}', tres, 'unfitted tree dict')
         rt = Tree.from_dict(td)
-        pend.eq(f'corr:unfitted:tree:{vt}:from_dict', f'tree_from_dict {S.pv(td)} PrevNone', f'(Ok {S.alpha_tree(rt, [])})', 'unfitted tree rebuilt')
+        pend.eq(f'corr:unfitted:tree:{vt}:from_dict', f'tree_from_dict {S.pv_dict(td)} PrevNone', f'(Ok {S.alpha_tree(rt, [])})', 'unfitted tree rebuilt')
         if rt.fitted or type(rt) is not type(t):
             viol.add(f'unfitted:tree:{vt}', f'unfitted {type(t).__name__} round-trips to {type(rt).__name__} fitted={rt.fitted}',
                      f't = get_tree({vt!r})\nr = Tree.from_dict(t.to_dict())\nassert not r.fitted and type(r) is type(t)\n')
@@ -1260,28 +1260,34 @@ def run(ctx):
     saved = np.random.get_state()
     tmpdir = tempfile.mkdtemp(prefix='vf_c14_', dir='/tmp')
     try:
+        import time
         with S.record_kde():
+            t0 = time.time()
             for case in uni_cases(rng, quick):
                 try:
                     run_uni(ctx, pend, E, case, viol, tmpdir)
                 except Exception:       # noqa: BLE001
                     ctx.obligation(f'harness:{case["key"]}', False, 'harness', traceback.format_exc()[-1500:])
+            ctx.log(f'phase before biv_cases: {time.time() - t0:.1f}s')
             for case in biv_cases(rng, quick):
                 try:
                     run_biv(ctx, pend, E, case, viol, tmpdir)
                 except Exception:       # noqa: BLE001
                     ctx.obligation(f'harness:{case["key"]}', False, 'harness', traceback.format_exc()[-1500:])
             run_biv_subclass_entry(ctx, pend, E, rng)
+            ctx.log(f'phase before gm_cases: {time.time() - t0:.1f}s')
             for case in gm_cases(rng, quick):
                 try:
                     run_gm(ctx, pend, E, case, viol, tmpdir)
                 except Exception:       # noqa: BLE001
                     ctx.obligation(f'harness:{case["key"]}', False, 'harness', traceback.format_exc()[-1500:])
+            ctx.log(f'phase before vine_cases: {time.time() - t0:.1f}s')
             for case in vine_cases(rng, quick):
                 try:
                     run_vine(ctx, pend, E, case, viol, tmpdir)
                 except Exception:       # noqa: BLE001
                     ctx.obligation(f'harness:{case["key"]}', False, 'harness', traceback.format_exc()[-1500:])
+            ctx.log(f'phase before unfitted: {time.time() - t0:.1f}s')
             try:
                 run_unfitted_and_dispatch(ctx, pend, E, viol, tmpdir, rng)
             except Exception:       # noqa: BLE001
@@ -1290,7 +1296,12 @@ def run(ctx):
     finally:
         np.random.set_state(saved)
         shutil.rmtree(tmpdir, ignore_errors=True)
+    import time
+    t0 = time.time()
     E.run(ctx)
+    ctx.log(f'coq evaluation of {len(E.exprs)} expressions: {time.time() - t0:.1f}s')
     pend.resolve()
+    t0 = time.time()
     viol.validate()
+    ctx.log(f'repro validation: {time.time() - t0:.1f}s')
     ctx.extra['coq_expressions_evaluated'] = len(E.exprs)
